@@ -6,8 +6,8 @@
    write side   cbe/encoder_writer.go, cte/encoder_writer.go (writeBytes,
                 WriteString*, StringWriterAdapter, SetWriter), the recover()
                 scope of cbe/marshal.go and cte/marshal.go (Marshal);
-   read side    cbe/decoder_reader.go (ReadUint8, ReadTypeOrEOF, readIntoBuffer,
-                readSmallULEB128 ...), go-uleb128 DecodeWithByteBuffer,
+   read side    cbe/decoder_reader.go (Reader.Read — the normalising layer every read goes
+                through —, ReadUint8, ReadTypeOrEOF, readIntoBuffer, readSmallULEB128 ...), go-uleb128 DecodeWithByteBuffer,
                 go-compact-time fillSlice / header reads, cbe/decoder.go
                 (Decode + main loop: runs until EOF), cte/decoder.go (io.Copy),
                 ce/api.go UnmarshalCE and ce/decoder.go UniversalDecoder.Decode
@@ -38,7 +38,7 @@ Inductive site :=
 | RCbeUint8         (* cbe/decoder_reader.go ReadUint8 *)
 | RCbeTypeOrEOF     (* cbe/decoder_reader.go ReadTypeOrEOF *)
 | RCbeIntoBuffer    (* cbe/decoder_reader.go readIntoBuffer *)
-| RCbeForward       (* cbe/decoder_reader.go Reader.Read: the io.Reader handed to the external decoders; forwards (n, err) *)
+| RCbeRead          (* cbe/decoder_reader.go Reader.Read: the only Read on the source; an error is remembered (pendingErr), never dropped *)
 | RCbePropagate     (* cbe/decoder_reader.go: err results of uleb128 / compact_float / compact_time decoders *)
 | RUlebFirst        (* go-uleb128 DecodeWithByteBuffer, first byte *)
 | RUlebCont         (* go-uleb128 DecodeWithByteBuffer, continuation bytes *)
@@ -67,7 +67,7 @@ Definition site_idx (s : site) : N :=
   | GCbeMarshal => 16 | GCteMarshal => 17 | GCbeUnmarshal => 18 | GCteUnmarshal => 19
   | GCbeDecode => 20 | GCteDecode => 21
   | RIoCopy => 22 | RBufioFill => 23 | RBufioRead => 24 | RBufioDirect => 25
-  | SUnknown => 26 | RCbeForward => 27
+  | SUnknown => 26 | RCbeRead => 27
   end.
 Definition site_eqb (a b : site) : bool := site_idx a =? site_idx b.
 Definition sclass_eqb (a b : sclass) : bool :=
@@ -86,7 +86,7 @@ Fixpoint shape_of_list (l : list (site * sclass)) (s : site) : sclass :=
 Definition current_shape_list : list (site * sclass) :=
   [ (WCbeBytes, Checked); (WCbeString, Checked); (WCteBytes, Checked);
     (WCteStringNotLF, Checked); (WCteStringLF, Checked);
-    (RCbeUint8, Checked); (RCbeTypeOrEOF, Checked); (RCbeIntoBuffer, Checked); (RCbeForward, Checked); (RCbePropagate, Checked);
+    (RCbeUint8, Checked); (RCbeTypeOrEOF, Checked); (RCbeIntoBuffer, Checked); (RCbeRead, Checked); (RCbePropagate, Checked);
     (RUlebFirst, Checked); (RUlebCont, Weak); (RCtByte, Checked); (RCtFill, Checked);
     (RCteCopy, Checked); (RCePeekUnmarshal, Checked); (RCePeekDecode, Checked);
     (GCbeMarshal, Checked); (GCteMarshal, Checked); (GCbeUnmarshal, Checked); (GCteUnmarshal, Checked);
@@ -111,16 +111,6 @@ Definition all_checked_but_uleb (sh : shape) : bool :=
 Definition guard {A} (sh : shape) (scope : site) (pass : bool) (o : outcome A) : outcome A :=
   match o with
   | Panic => if chk sh scope && negb pass then Err else Panic
-  | o' => o'
-  end.
-
-(* Unmarshaler.Unmarshal after Decode returned an error: `receiver.OnError()` (builder
-   ArtificiallyTerminate) and `builder.GetBuiltObject()` run before the error is returned.
-   [onerr] = that epilogue returns; it belongs to the builder (not modelled here) and is
-   known to spin forever in some builder states. *)
-Definition after_decode {A} (onerr : bool) (o : outcome A) : outcome A :=
-  match o with
-  | Err => if onerr then Err else Hang
   | o' => o'
   end.
 
@@ -265,6 +255,9 @@ Section Source.
   (* The source: any state machine; [step s n] is Read(p) with len p = n. *)
   Variable S : Type.
   Variable step : S -> N -> S * rres.
+  (* [spin s]: the source has stopped returning (only the normalising layer below sets it, when the
+     reader underneath keeps answering (0, nil)) *)
+  Variable spin : S -> bool.
 
   Record rst := { rs_src : S; rs_tr : list revent (* most recent first *) }.
 
@@ -274,7 +267,7 @@ Section Source.
 
   Variable sh : shape.
 
-  (* ReadUint8: `if _, err := reader.Read(buf[:1]); err != nil { unexpectedError(err) }` *)
+  (* ReadUint8: `if _, err := _this.Read(buf[:1]); err != nil { unexpectedError(err) }` *)
   Definition read_uint8 (st : rst) : rst * pres bytes :=
     let '(st', r) := rd st RCbeUint8 1 in
     match err_at sh RCbeUint8 (rr_err r) with
@@ -304,10 +297,6 @@ Section Source.
            end
     end.
 
-  (* The external decoders (uleb128, compact_float, compact_time) read through Reader.Read, which
-     forwards the source's (n, err) and counts the bytes. *)
-  Definition fwd (e : rerr) : rerr := err_at sh RCbeForward e.
-
   (* uleb128.DecodeWithByteBuffer.  First byte: `if _, err = reader.Read(buffer); err != nil { return }`.
      Continuation bytes: `bytesRead, err = reader.Read(buffer); if bytesRead == 0 { return }` ... and the
      function returns whatever [err] holds when the last byte (no continuation bit) has been read: an error
@@ -318,7 +307,7 @@ Section Source.
     | O => (st, UHang)
     | Datatypes.S f =>
       let '(st', r) := rd st RUlebCont 1 in
-      let e := match sh RUlebCont with Unchecked => ENone | _ => fwd (rr_err r) end in
+      let e := match sh RUlebCont with Unchecked => ENone | _ => rr_err r end in
       if chk sh RUlebCont && negb (is_none e) then (st', URet e acc)
       else match rr_data r with
            | [] => (st', URet e acc)
@@ -328,7 +317,7 @@ Section Source.
 
   Definition uleb (fuel : nat) (st : rst) : rst * ures :=
     let '(st', r) := rd st RUlebFirst 1 in
-    match err_at sh RUlebFirst (fwd (rr_err r)) with
+    match err_at sh RUlebFirst (rr_err r) with
     | ENone => match rr_data r with
                | [] => (st', URet ENone [])          (* (0, nil): the stale buffer byte is used; not this property *)
                | b :: _ => if b <? 128 then (st', URet ENone [b]) else uleb_loop fuel st' [b]
@@ -343,7 +332,7 @@ Section Source.
     | Datatypes.S f =>
       if n =? 0 then (st, URet ENone acc)
       else let '(st', r) := rd st RCtFill n in
-           match err_at sh RCtFill (fwd (rr_err r)) with
+           match err_at sh RCtFill (rr_err r) with
            | ENone => ct_fill f st' (n - blen (rr_data r)) (acc ++ rr_data r)
            | e => (st', URet e acc)
            end
@@ -351,7 +340,7 @@ Section Source.
 
   Definition ct_byte (st : rst) : rst * ures :=
     let '(st', r) := rd st RCtByte 1 in
-    (st', URet (err_at sh RCtByte (fwd (rr_err r))) (rr_data r)).
+    (st', URet (err_at sh RCtByte (rr_err r)) (rr_data r)).
 
   (* `value, ..., err := <library decoder>(reader, buffer); if err != nil { unexpectedError(err) }` *)
   Definition propagate (x : rst * ures) : rst * pres bytes :=
@@ -391,6 +380,7 @@ Section Source.
         | AFail => (st, Panic)
         | ADo p =>
           let '(st', r) := run_prim f p st in
+          if spin (rs_src st') then (st', Hang) else
           match r with
           | PPanic => (st', Panic)
           | PHang => (st', Hang)
@@ -406,8 +396,8 @@ Section Source.
 
     (* cbe.Unmarshaler.Unmarshal: Decode inside a second recover() scope; a
        returned error stays the returned error. *)
-    Definition cbe_unmarshal (onerr pass : bool) (fuel : nat) (st : rst) (d : D) : rst * outcome unit :=
-      let '(st', o) := cbe_decode pass fuel st d in (st', guard sh GCbeUnmarshal pass (after_decode onerr o)).
+    Definition cbe_unmarshal (pass : bool) (fuel : nat) (st : rst) (d : D) : rst * outcome unit :=
+      let '(st', o) := cbe_decode pass fuel st d in (st', guard sh GCbeUnmarshal pass o).
   End Decoder.
 
   (* io.Copy(strings.Builder, reader) when the reader has no WriteTo: Read into a
@@ -442,12 +432,76 @@ Section Source.
 
   Definition cte_decode (pass : bool) (fuel : nat) (st : rst) : rst * outcome unit :=
     cte_after_copy pass (io_copy fuel st []).
-  Definition cte_unmarshal (onerr pass : bool) (fuel : nat) (st : rst) : rst * outcome unit :=
-    let '(st', o) := cte_decode pass fuel st in (st', guard sh GCteUnmarshal pass (after_decode onerr o)).
+  Definition cte_unmarshal (pass : bool) (fuel : nat) (st : rst) : rst * outcome unit :=
+    let '(st', o) := cte_decode pass fuel st in (st', guard sh GCteUnmarshal pass o).
 End Source.
 Arguments rs_src {S}.
 Arguments rs_tr {S}.
 Arguments Build_rst {S}.
+
+(* ------------------------------------------------------------------------- *)
+(* cbe Reader.Read: the normalising layer between the CBE reader primitives (and the external decoders)
+   and the source handed to Decode.  The callers only ever see (n > 0, nil) or (0, err):
+     if pendingErr != nil { return 0, pendingErr }
+     for { n, err = reader.Read(p)
+           if n > 0 { pendingErr = err; return n, nil }
+           if err != nil { pendingErr = err; return 0, err } }
+   pendingErr is never cleared within a document (SetReader clears it). *)
+Section Norm.
+  Variable S : Type.
+  Variable step : S -> N -> S * rres.
+  Variable sh : shape.
+
+  Record nst := { n_pend : rerr; n_spin : bool; n_under : rst S }.
+  Definition norm0 (u : rst S) : nst := {| n_pend := ENone; n_spin := false; n_under := u |}.
+
+  (* the retry loop; a source that answers (0, nil) for ever makes it spin: after [i] such answers the
+     model gives up, raises n_spin (the decoder loop then reports Hang) and hands back an empty read *)
+  Fixpoint n_retry (i : nat) (b : nst) (n : N) : nst * rres :=
+    match i with
+    | O => ({| n_pend := n_pend b; n_spin := true; n_under := n_under b |}, {| rr_data := []; rr_err := ENone |})
+    | Datatypes.S j =>
+      let '(u', r) := rd S step (n_under b) RCbeRead n in
+      let e := err_at sh RCbeRead (rr_err r) in
+      match rr_data r with
+      | [] => match e with
+              | ENone => n_retry j {| n_pend := n_pend b; n_spin := n_spin b; n_under := u' |} n
+              | _ => ({| n_pend := e; n_spin := n_spin b; n_under := u' |}, {| rr_data := []; rr_err := e |})
+              end
+      | data => ({| n_pend := e; n_spin := n_spin b; n_under := u' |}, {| rr_data := data; rr_err := ENone |})
+      end
+    end.
+
+  Definition retry_limit : nat := 100.
+  Definition n_read (b : nst) (n : N) : nst * rres :=
+    if n =? 0 then (b, {| rr_data := []; rr_err := ENone |})
+    else match n_pend b with
+         | ENone => n_retry retry_limit b n
+         | e => (b, {| rr_data := []; rr_err := e |})
+         end.
+End Norm.
+Arguments n_pend {S}.
+Arguments n_spin {S}.
+Arguments n_under {S}.
+Arguments Build_nst {S}.
+
+(* cbe.Decoder.Decode / cbe.Unmarshaler.Unmarshal on a source: SetReader (fresh pendingErr), then the
+   decoder over the normalising layer.  Returns the source with the trace of the calls made on it. *)
+Section CbeEntry.
+  Variable S : Type.
+  Variable step : S -> N -> S * rres.
+  Variable sh : shape.
+  Variable D : Type.
+  Variable dnext : D -> action.
+  Variable dfeed : D -> bytes -> D.
+  Variable dfinal : D -> bool.
+
+  Definition cbe_entry (unm pass : bool) (fuel : nat) (u : rst S) (d : D) : rst S * outcome unit :=
+    let st := {| rs_src := norm0 S u; rs_tr := [] |} in
+    let '(st', o) := (if unm then cbe_unmarshal (nst S) (n_read S step sh) n_spin sh D dnext dfeed dfinal
+                      else cbe_decode (nst S) (n_read S step sh) n_spin sh D dnext dfeed dfinal) pass fuel st d in
+    (n_under (rs_src st'), o).
+End CbeEntry.
 
 (* The first n elements of a list and the rest. *)
 Fixpoint take_n (n : N) (l : bytes) : bytes * bytes :=
@@ -555,7 +609,7 @@ Section Universal.
 
   (* [unm] = UnmarshalCE (unmarshalers), otherwise UniversalDecoder.Decode (decoders).
      Returns the caller's reader (with the trace of the calls made on it) and the outcome. *)
-  Definition universal (unm onerr pass : bool) (fuel : nat) (u : rst S) (d : D) : rst S * outcome unit :=
+  Definition universal (unm pass : bool) (fuel : nat) (u : rst S) (d : D) : rst S * outcome unit :=
     let '(b1, first) := b_peek1 S step {| b_buf := []; b_err := ENone; b_under := u |} in
     let peek_site := if unm then RCePeekUnmarshal else RCePeekDecode in
     match first with
@@ -564,14 +618,14 @@ Section Universal.
       match choose x with
       | UNone => (b_under b1, Err)
       | UCbe =>
-        let st := {| rs_src := b1; rs_tr := [] |} in
-        let '(st', o) := (if unm then cbe_unmarshal (bst S) (b_read S step) sh D dnext dfeed dfinal onerr
-                          else cbe_decode (bst S) (b_read S step) sh D dnext dfeed dfinal) pass fuel st d in
-        (b_under (rs_src st'), o)
+        (* the CBE decoder reads bufio through its normalising layer *)
+        let '(m, o) := cbe_entry (bst S) (b_read S step) sh D dnext dfeed dfinal unm pass fuel
+                                 {| rs_src := b1; rs_tr := [] |} d in
+        (b_under (rs_src m), o)
       | UCte =>
         let '(b2, r) := b_writeto S step fuel b1 in
         let '(st', o) := cte_after_copy (bst S) sh parse pass ({| rs_src := b2; rs_tr := [] |}, r) in
-        (b_under (rs_src st'), if unm then guard sh GCteUnmarshal pass (after_decode onerr o) else o)
+        (b_under (rs_src st'), if unm then guard sh GCteUnmarshal pass o else o)
       end
     end.
 End Universal.
@@ -674,12 +728,12 @@ Definition rmodel (e : rentry) (pass : bool) (data : bytes) (script : list prim)
   let prs := fun _ : bytes => final_ok in
   let '(st, o) :=
     match e with
-    | RECbeDecode => cbe_decode rsrc stp current_shape (list prim) script_next script_feed fin pass fuel st0 script
-    | RECbeUnmarshal => cbe_unmarshal rsrc stp current_shape (list prim) script_next script_feed fin true pass fuel st0 script
+    | RECbeDecode => cbe_entry rsrc stp current_shape (list prim) script_next script_feed fin false pass fuel st0 script
+    | RECbeUnmarshal => cbe_entry rsrc stp current_shape (list prim) script_next script_feed fin true pass fuel st0 script
     | RECteDecode => cte_decode rsrc stp current_shape prs pass fuel st0
-    | RECteUnmarshal => cte_unmarshal rsrc stp current_shape prs true pass fuel st0
-    | REUniDecode => universal rsrc stp current_shape (list prim) script_next script_feed fin prs false true pass fuel st0 script
-    | REUniUnmarshal => universal rsrc stp current_shape (list prim) script_next script_feed fin prs true true pass fuel st0 script
+    | RECteUnmarshal => cte_unmarshal rsrc stp current_shape prs pass fuel st0
+    | REUniDecode => universal rsrc stp current_shape (list prim) script_next script_feed fin prs false pass fuel st0 script
+    | REUniUnmarshal => universal rsrc stp current_shape (list prim) script_next script_feed fin prs true pass fuel st0 script
     end in
   (List.rev (rs_tr st), out_of o).
 
